@@ -243,11 +243,21 @@ int32_t psHmacMd5(const unsigned char *key, psSize_t keyLen,
 int32_t psHmacMd5Init(psHmacMd5_t *ctx,
     const unsigned char *key, psSize_t keyLen)
 {
+    unsigned char hk[MD5_HASHLEN];
     int32_t rc, i;
 
-# ifdef CRYPTO_ASSERT
-    psAssert(keyLen <= 64);
-# endif
+    if (keyLen > 64)
+    {
+        /* RFC 2104 s.2: a key longer than the block is replaced by its hash */
+        if ((rc = psMd5Init(&ctx->md5)) < 0)
+        {
+            return rc;
+        }
+        psMd5Update(&ctx->md5, key, keyLen);
+        psMd5Final(&ctx->md5, hk);
+        key = hk;
+        keyLen = MD5_HASHLEN;
+    }
     for (i = 0; (uint32) i < keyLen; i++)
     {
         ctx->pad[i] = key[i] ^ 0x36;
@@ -369,11 +379,21 @@ int32_t psHmacSha1(const unsigned char *key, psSize_t keyLen,
 int32_t psHmacSha1Init(psHmacSha1_t *ctx,
     const unsigned char *key, psSize_t keyLen)
 {
+    unsigned char hk[SHA1_HASHLEN];
     int32_t rc, i;
 
-# ifdef CRYPTO_ASSERT
-    psAssert(keyLen <= 64);
-# endif
+    if (keyLen > 64)
+    {
+        /* RFC 2104 s.2: a key longer than the block is replaced by its hash */
+        if ((rc = psSha1Init(&ctx->sha1)) < 0)
+        {
+            return rc;
+        }
+        psSha1Update(&ctx->sha1, key, keyLen);
+        psSha1Final(&ctx->sha1, hk);
+        key = hk;
+        keyLen = SHA1_HASHLEN;
+    }
     for (i = 0; (uint32) i < keyLen; i++)
     {
         ctx->pad[i] = key[i] ^ 0x36;
@@ -491,11 +511,21 @@ int32_t psHmacSha256(const unsigned char *key, psSize_t keyLen,
 int32_t psHmacSha256Init(psHmacSha256_t *ctx,
     const unsigned char *key, psSize_t keyLen)
 {
+    unsigned char hk[SHA256_HASHLEN];
     int32_t rc, i, padLen = 64;
 
-# ifdef CRYPTO_ASSERT
-    psAssert(keyLen <= (uint32) padLen);
-# endif
+    if (keyLen > (uint32) padLen)
+    {
+        /* RFC 2104 s.2: a key longer than the block is replaced by its hash */
+        if ((rc = psSha256Init(&ctx->sha256)) < 0)
+        {
+            return rc;
+        }
+        psSha256Update(&ctx->sha256, key, keyLen);
+        psSha256Final(&ctx->sha256, hk);
+        key = hk;
+        keyLen = SHA256_HASHLEN;
+    }
     for (i = 0; (uint32) i < keyLen; i++)
     {
         ctx->pad[i] = key[i] ^ 0x36;
@@ -613,13 +643,23 @@ int32_t psHmacSha384(const unsigned char *key, psSize_t keyLen,
 int32_t psHmacSha384Init(psHmacSha384_t *ctx,
     const unsigned char *key, psSize_t keyLen)
 {
+    unsigned char hk[SHA384_HASHLEN];
     int32_t rc, i, padLen;
 
     padLen = 128;
 
-# ifdef CRYPTO_ASSERT
-    psAssert(keyLen <= (uint32) padLen);
-# endif
+    if (keyLen > (uint32) padLen)
+    {
+        /* RFC 2104 s.2: a key longer than the block is replaced by its hash */
+        if ((rc = psSha384Init(&ctx->sha384)) < 0)
+        {
+            return rc;
+        }
+        psSha384Update(&ctx->sha384, key, keyLen);
+        psSha384Final(&ctx->sha384, hk);
+        key = hk;
+        keyLen = SHA384_HASHLEN;
+    }
     for (i = 0; (uint32) i < keyLen; i++)
     {
         ctx->pad[i] = key[i] ^ 0x36;
